@@ -1492,6 +1492,7 @@ func main() {
 		}
 	}
 
+	captured := captureScan(an)
 	sort.SliceStable(an.accs, func(i, j int) bool {
 		a, b := an.accs[i], an.accs[j]
 		if a.Loc != b.Loc {
@@ -1533,6 +1534,7 @@ func main() {
 			}
 		}
 	}
+	fields = append(fields, captured...)
 	sort.Strings(fields)
 	if an.unresolved == nil {
 		an.unresolved = []string{}
@@ -2062,6 +2064,589 @@ func ctaScan(an *analyzer) []ctaT {
 				out = append(out, ctaT{Loc: ops[key][0].loc, Func: fi.key, File: fi.file.base,
 					Load: an.fset.Position(load).Line, Store: an.fset.Position(store).Line})
 			}
+		}
+	}
+	return out
+}
+
+// ---------------------------------------------------------------- closure-captured locals
+//
+// A local variable (or parameter) that is captured by a closure which does NOT simply run inline — a `go`
+// closure, a closure that is returned / stored / registered as a handler — is shared state just like a struct
+// field. captureScan makes each such variable a location "<function>$<var>" with its own small role set,
+// relative to ONE instance of the variable (one execution of the declaring function body):
+//   <function>$decl       the declaring body itself (and closures it runs inline: defer, immediately invoked,
+//                         arguments of the synchronous combinators)              — one thread
+//   <function>$go@<line>  a `go` closure directly in the body, not in a loop: one thread per instance, spawned by
+//                         $decl; go statements in mutually exclusive branches share one role
+//   <function>$conc*      everything that may run any number of times, concurrently with itself: escaping /
+//                         registered closures, go statements in loops or inside such closures
+// Accesses of $decl that precede (in source order, and not in a loop that outlives the variable) the first
+// non-inline closure using the variable are construction (PCtor). Kinds: assignment to the variable or through
+// it (v.f = .., v[i] = .., *v = ..), ++/--, &v are writes; a variable initialised with &T{..}/new(T) of a type
+// that is not a tracked struct stands for what it points to: passing it to a call or calling a method on it
+// may write it. Variables of tracked struct types (their fields are in the table already) and sync.* values
+// are only tracked for re-assignment.
+
+func captureScan(an *analyzer) []string {
+	var locs []string
+	var keys []string
+	for k := range an.funcs {
+		keys = append(keys, k)
+	}
+	sort.Strings(keys)
+	for _, k := range keys {
+		fi := an.funcs[k]
+		var bodies []struct {
+			name string
+			body *ast.BlockStmt
+			ft   *ast.FuncType
+			recv *ast.FieldList
+		}
+		bodies = append(bodies, struct {
+			name string
+			body *ast.BlockStmt
+			ft   *ast.FuncType
+			recv *ast.FieldList
+		}{fi.key, fi.decl.Body, fi.decl.Type, fi.decl.Recv})
+		ast.Inspect(fi.decl.Body, func(n ast.Node) bool {
+			if fl, ok := n.(*ast.FuncLit); ok {
+				bodies = append(bodies, struct {
+					name string
+					body *ast.BlockStmt
+					ft   *ast.FuncType
+					recv *ast.FieldList
+				}{fmt.Sprintf("%s.func@%d", fi.key, an.fset.Position(fl.Pos()).Line), fl.Body, fl.Type, nil})
+			}
+			return true
+		})
+		for _, b := range bodies {
+			locs = append(locs, captureBody(an, fi, b.name, b.body, b.ft, b.recv)...)
+		}
+	}
+	return locs
+}
+
+type capVar struct {
+	name       string
+	declPos    token.Pos
+	ptrMutable bool // initialised with &T{} / new(T), T not a tracked struct
+	inert      bool // tracked struct type or sync.*: only re-assignment matters
+}
+
+type capAcc struct {
+	v      *capVar
+	kind   string
+	role   string
+	repl   bool
+	parent string
+	pos    token.Pos
+	flit   token.Pos // start of the outermost non-inline closure containing the access (NoPos: in the body itself)
+}
+
+func captureBody(an *analyzer, fi *funcInfo, owner string, body *ast.BlockStmt, ft *ast.FuncType, recv *ast.FieldList) []string {
+	vars := map[string]*capVar{}
+	classify := func(v *capVar, typ ast.Expr, init ast.Expr) {
+		t := typ
+		if t == nil && init != nil {
+			switch i := init.(type) {
+			case *ast.UnaryExpr:
+				if cl, ok := i.X.(*ast.CompositeLit); ok && i.Op == token.AND {
+					t = cl.Type
+					if _, tr := tracked[structName(t)]; !tr && !isSyncType(t) {
+						v.ptrMutable = true
+					}
+				}
+			case *ast.CompositeLit:
+				t = i.Type
+			case *ast.CallExpr:
+				if id, ok := i.Fun.(*ast.Ident); ok && id.Name == "new" && len(i.Args) == 1 {
+					t = i.Args[0]
+					if _, tr := tracked[structName(t)]; !tr && !isSyncType(t) {
+						v.ptrMutable = true
+					}
+				}
+			}
+		}
+		if t != nil {
+			if _, tr := tracked[structName(t)]; tr || isSyncType(t) {
+				v.inert = true
+				v.ptrMutable = false
+			}
+		}
+	}
+	addVar := func(id *ast.Ident, typ, init ast.Expr) {
+		if id == nil || id.Name == "_" {
+			return
+		}
+		if _, ok := vars[id.Name]; ok {
+			return
+		}
+		v := &capVar{name: id.Name, declPos: id.Pos()}
+		classify(v, typ, init)
+		vars[id.Name] = v
+	}
+	for _, fl := range []*ast.FieldList{recv, ft.Params, ft.Results} {
+		if fl == nil {
+			continue
+		}
+		for _, f := range fl.List {
+			for _, n := range f.Names {
+				addVar(n, f.Type, nil)
+			}
+		}
+	}
+	// declarations directly in this body (not inside nested closures)
+	var declWalk func(n ast.Node) bool
+	declWalk = func(n ast.Node) bool {
+		switch x := n.(type) {
+		case *ast.FuncLit:
+			return false
+		case *ast.AssignStmt:
+			if x.Tok == token.DEFINE {
+				for i, l := range x.Lhs {
+					if id, ok := l.(*ast.Ident); ok {
+						var init ast.Expr
+						if len(x.Lhs) == len(x.Rhs) {
+							init = x.Rhs[i]
+						}
+						addVar(id, nil, init)
+					}
+				}
+			}
+		case *ast.ValueSpec:
+			for i, nme := range x.Names {
+				var init ast.Expr
+				if i < len(x.Values) {
+					init = x.Values[i]
+				}
+				addVar(nme, x.Type, init)
+			}
+		case *ast.RangeStmt:
+			if x.Tok == token.DEFINE {
+				if id, ok := x.Key.(*ast.Ident); ok {
+					addVar(id, nil, nil)
+				}
+				if id, ok := x.Value.(*ast.Ident); ok {
+					addVar(id, nil, nil)
+				}
+			}
+		}
+		return true
+	}
+	ast.Inspect(body, declWalk)
+	if len(vars) == 0 {
+		return nil
+	}
+	type rng struct{ lo, hi token.Pos }
+	var loops []rng
+	ast.Inspect(body, func(n ast.Node) bool {
+		switch x := n.(type) {
+		case *ast.ForStmt:
+			loops = append(loops, rng{x.Pos(), x.End()})
+		case *ast.RangeStmt:
+			loops = append(loops, rng{x.Pos(), x.End()})
+		}
+		return true
+	})
+
+	// go statements directly in the body's own role, with their branch arms (for exclusivity)
+	type armT struct {
+		node ast.Node
+		arm  int
+	}
+	goArms := map[token.Pos][]armT{}
+	var accs []capAcc
+	var stack []ast.Node
+	shadowCache := map[*ast.FuncLit]map[string]bool{}
+	shadow := func(fl *ast.FuncLit, name string) bool {
+		m, ok := shadowCache[fl]
+		if !ok {
+			m = map[string]bool{}
+			if fl.Type.Params != nil {
+				for _, f := range fl.Type.Params.List {
+					for _, n := range f.Names {
+						m[n.Name] = true
+					}
+				}
+			}
+			// names (re)declared inside the closure are new variables there
+			ast.Inspect(fl.Body, func(n ast.Node) bool {
+				switch x := n.(type) {
+				case *ast.FuncLit:
+					return false
+				case *ast.AssignStmt:
+					if x.Tok == token.DEFINE {
+						for _, l := range x.Lhs {
+							if id, ok := l.(*ast.Ident); ok {
+								m[id.Name] = true
+							}
+						}
+					}
+				case *ast.ValueSpec:
+					for _, nme := range x.Names {
+						m[nme.Name] = true
+					}
+				}
+				return true
+			})
+			shadowCache[fl] = m
+		}
+		return m[name]
+	}
+	// a closure bound to a local name that is only ever called directly runs inline
+	onlyCalled := func(name string) bool {
+		ok := true
+		var st []ast.Node
+		ast.Inspect(body, func(n ast.Node) bool {
+			if n == nil {
+				st = st[:len(st)-1]
+				return true
+			}
+			st = append(st, n)
+			if id, isID := n.(*ast.Ident); isID && id.Name == name && len(st) >= 2 {
+				switch p := st[len(st)-2].(type) {
+				case *ast.CallExpr:
+					if p.Fun != ast.Expr(id) {
+						ok = false
+					} else if len(st) >= 3 {
+						if _, isGo := st[len(st)-3].(*ast.GoStmt); isGo {
+							ok = false
+						}
+					}
+				case *ast.AssignStmt:
+					isLHS := false
+					for _, l := range p.Lhs {
+						if l == ast.Expr(id) {
+							isLHS = true
+						}
+					}
+					if !isLHS {
+						ok = false
+					}
+				default:
+					ok = false
+				}
+			}
+			return true
+		})
+		return ok
+	}
+	armOf := func(parent ast.Node, child ast.Node) (ast.Node, int, bool) {
+		switch p := parent.(type) {
+		case *ast.IfStmt:
+			if child == ast.Node(p.Body) {
+				return p, 0, true
+			}
+			if p.Else != nil && child == p.Else {
+				return p, 1, true
+			}
+		case *ast.BlockStmt:
+			// case clauses are children of the switch body block
+		case *ast.CaseClause, *ast.CommClause:
+			return nil, 0, false
+		}
+		return nil, 0, false
+	}
+	context := func(name string) (role string, repl bool, parent string, flit token.Pos, ok bool) {
+		role, parent = owner+"$decl", ""
+		loop := 0
+		var arms []armT
+		for i := 1; i < len(stack); i++ {
+			n, par := stack[i], stack[i-1]
+			if a, idx, isArm := armOf(par, n); isArm {
+				arms = append(arms, armT{a, idx})
+			}
+			if cc, isCC := n.(*ast.CaseClause); isCC {
+				// parent is the body block of a switch: arm = this clause
+				arms = append(arms, armT{par, int(cc.Pos())})
+			}
+			if cc, isCC := n.(*ast.CommClause); isCC {
+				arms = append(arms, armT{par, int(cc.Pos())})
+			}
+			switch x := n.(type) {
+			case *ast.ForStmt, *ast.RangeStmt:
+				loop++
+			case *ast.GoStmt:
+				if _, isLit := x.Call.Fun.(*ast.FuncLit); !isLit {
+					// go f(v): the new goroutine works on what it was handed
+					if !repl && loop == 0 && role == owner+"$decl" {
+						role = fmt.Sprintf("%s$go@%d", owner, an.fset.Position(x.Pos()).Line)
+						parent = owner + "$decl"
+						goArms[x.Pos()] = append([]armT(nil), arms...)
+					} else {
+						repl = true
+						role = owner + "$conc*"
+						parent = ""
+					}
+					if flit == token.NoPos {
+						flit = x.Pos()
+					}
+					loop = 0
+				}
+			case *ast.FuncLit:
+				if shadow(x, name) {
+					return "", false, "", token.NoPos, false
+				}
+				inline := false
+				isGo := false
+				if call, isCall := par.(*ast.CallExpr); isCall {
+					if call.Fun == ast.Expr(x) {
+						if i >= 2 {
+							switch stack[i-2].(type) {
+							case *ast.GoStmt:
+								isGo = true
+							default:
+								inline = true // deferred or immediately invoked
+							}
+						} else {
+							inline = true
+						}
+					} else if syncCombinators[funName(call.Fun)] {
+						inline = true
+						loop++ // may be run repeatedly
+					}
+				}
+				if as, isAssign := par.(*ast.AssignStmt); isAssign && len(as.Lhs) == 1 && len(as.Rhs) == 1 && as.Rhs[0] == ast.Expr(x) {
+					if id, isID := as.Lhs[0].(*ast.Ident); isID && onlyCalled(id.Name) {
+						inline = true
+					}
+				}
+				switch {
+				case inline:
+				case isGo && !repl && loop == 0 && role == owner+"$decl":
+					role = fmt.Sprintf("%s$go@%d", owner, an.fset.Position(x.Pos()).Line)
+					parent = owner + "$decl"
+					goArms[x.Pos()] = append([]armT(nil), arms...)
+					if flit == token.NoPos {
+						flit = x.Pos()
+					}
+					loop = 0
+				default:
+					repl = true
+					role = owner + "$conc*"
+					parent = ""
+					if flit == token.NoPos {
+						flit = x.Pos()
+					}
+					loop = 0
+				}
+			}
+		}
+		return role, repl, parent, flit, true
+	}
+	kindOf := func(v *capVar) (string, bool) {
+		// climb from the identifier through selectors / indexes / derefs
+		i := len(stack) - 1
+		through := false
+		for i > 0 {
+			child, par := stack[i], stack[i-1]
+			switch p := par.(type) {
+			case *ast.SelectorExpr:
+				if p.X == child {
+					through = true
+					i--
+					continue
+				}
+			case *ast.IndexExpr:
+				if p.X == child {
+					through = true
+					i--
+					continue
+				}
+			case *ast.SliceExpr:
+				if p.X == child {
+					i--
+					continue
+				}
+			case *ast.StarExpr:
+				through = true
+				i--
+				continue
+			case *ast.ParenExpr:
+				i--
+				continue
+			}
+			break
+		}
+		if i == 0 {
+			return "KRead", false
+		}
+		e, par := stack[i], stack[i-1]
+		write := func() (string, bool) {
+			if through && v.inert {
+				return "KRead", false
+			}
+			return "KWrite", false
+		}
+		switch p := par.(type) {
+		case *ast.AssignStmt:
+			for _, l := range p.Lhs {
+				if l == e {
+					if p.Tok == token.DEFINE && !through {
+						return "KWrite", true
+					}
+					return write()
+				}
+			}
+		case *ast.ValueSpec:
+			for _, n := range p.Names {
+				if ast.Node(n) == e {
+					return "KWrite", true
+				}
+			}
+		case *ast.RangeStmt:
+			if (p.Key == e || p.Value == e) && !through {
+				return "KWrite", p.Tok == token.DEFINE
+			}
+		case *ast.IncDecStmt:
+			return write()
+		case *ast.UnaryExpr:
+			if p.Op == token.AND {
+				return write()
+			}
+		case *ast.CallExpr:
+			if p.Fun == e {
+				if through && v.ptrMutable {
+					return "KWrite", false // method call on what it points to
+				}
+				return "KRead", false
+			}
+			if !through && v.ptrMutable {
+				return "KWrite", false // the pointer is handed to a function that may write through it
+			}
+		}
+		return "KRead", false
+	}
+	var visit func(n ast.Node) bool
+	visit = func(n ast.Node) bool {
+		if n == nil {
+			stack = stack[:len(stack)-1]
+			return true
+		}
+		stack = append(stack, n)
+		switch x := n.(type) {
+		case *ast.SelectorExpr:
+			// only the base can be a variable
+			ast.Inspect(x.X, visit)
+			stack = stack[:len(stack)-1]
+			return false
+		case *ast.KeyValueExpr:
+			if _, isIdent := x.Key.(*ast.Ident); !isIdent {
+				ast.Inspect(x.Key, visit)
+			}
+			ast.Inspect(x.Value, visit)
+			stack = stack[:len(stack)-1]
+			return false
+		case *ast.Ident:
+			v := vars[x.Name]
+			if v == nil {
+				return true
+			}
+			kind, isDecl := kindOf(v)
+			role, repl, parent, flit, ok := context(x.Name)
+			if !ok {
+				return true
+			}
+			if isDecl && x.Pos() != v.declPos && role == owner+"$decl" {
+				// re-declaration in a nested scope of the same body: treat as the same variable
+			}
+			accs = append(accs, capAcc{v, kind, role, repl, parent, x.Pos(), flit})
+		}
+		return true
+	}
+	stack = []ast.Node{}
+	ast.Inspect(body, visit)
+
+	// merge go roles of mutually exclusive branches
+	exclusive := func(a, b []armT) bool {
+		for _, x := range a {
+			for _, y := range b {
+				if x.node == y.node && x.arm != y.arm {
+					return true
+				}
+			}
+		}
+		return false
+	}
+	goRole := map[string]string{}
+	var goPos []token.Pos
+	for p := range goArms {
+		goPos = append(goPos, p)
+	}
+	sort.Slice(goPos, func(i, j int) bool { return goPos[i] < goPos[j] })
+	for i, p := range goPos {
+		name := fmt.Sprintf("%s$go@%d", owner, an.fset.Position(p).Line)
+		goRole[name] = name
+		for _, q := range goPos[:i] {
+			qn := fmt.Sprintf("%s$go@%d", owner, an.fset.Position(q).Line)
+			if exclusive(goArms[p], goArms[q]) {
+				goRole[name] = goRole[qn]
+				break
+			}
+		}
+	}
+
+	var out []string
+	byVar := map[*capVar][]capAcc{}
+	for _, a := range accs {
+		byVar[a.v] = append(byVar[a.v], a)
+	}
+	var vs []*capVar
+	for v := range byVar {
+		vs = append(vs, v)
+	}
+	sort.Slice(vs, func(i, j int) bool { return vs[i].declPos < vs[j].declPos })
+	for _, v := range vs {
+		shared := false
+		first := token.NoPos
+		for _, a := range byVar[v] {
+			if a.role != owner+"$decl" {
+				shared = true
+				if first == token.NoPos || a.flit < first {
+					first = a.flit
+				}
+			}
+		}
+		if !shared {
+			continue
+		}
+		// a variable that is only written while it is being set up cannot race: leave it out of the table
+		mutated := false
+		for _, a := range byVar[v] {
+			if a.kind == "KWrite" && (a.role != owner+"$decl" || a.pos >= first) {
+				mutated = true
+			}
+		}
+		if !mutated {
+			continue
+		}
+		loc := owner + "$" + v.name
+		out = append(out, loc)
+		for _, a := range byVar[v] {
+			role := a.role
+			if r, ok := goRole[role]; ok {
+				role = r
+			}
+			an.role(role, a.parent)
+			phase := "PShared"
+			if a.role == owner+"$decl" && a.pos < first {
+				phase = "PCtor"
+				for _, l := range loops {
+					if l.lo <= a.pos && a.pos < l.hi && l.lo <= first && first < l.hi && v.declPos < l.lo {
+						phase = "PShared" // the variable outlives the iterations of a loop that shares it
+					}
+				}
+			}
+			p := an.fset.Position(a.pos)
+			acc := accessT{Loc: loc, Kind: a.kind, Role: role, Phase: phase, Site: fmt.Sprintf("%s:%d %s", filepath.Base(p.Filename), p.Line, owner),
+				File: filepath.Base(p.Filename), Line: p.Line, Func: owner}
+			k := fmt.Sprintf("%s|%s|%s|%s||%s", acc.Loc, acc.Kind, acc.Role, acc.Phase, acc.Site)
+			if an.accSeen[k] {
+				continue
+			}
+			an.accSeen[k] = true
+			an.accs = append(an.accs, acc)
 		}
 	}
 	return out
